@@ -558,17 +558,23 @@ def r4_update_template_forwards(ctx, rid):
         if isinstance(v, ast.Attribute) and isinstance(v.value, ast.Name) and v.value.id == selfn:
             good = v.attr == p
             why = f"`{p}` receives `{norm(v)}`"
-        elif isinstance(v, ast.Name) and v.id == p:
+        elif isinstance(v, ast.Name):
+            # the value handed over may live in any local: what counts is where it comes from - on every definition that reaches
+            # the constructor call it is either the update_template parameter `p` itself (the update the caller asked for) or
+            # computed from this template's own `p` (and possibly that parameter), never from another constructor field
             good = True
-            for d in rd.defs_reaching(v):
-                if isinstance(d, ast.arguments):
+            for d, origin in _value_origins(ctx, upd, v):
+                if origin == "param":
+                    if d != p:
+                        good = False
+                        why = f"`{p}` receives update_template's parameter `{d}`"
                     continue
-                val = assigned_value(d, p)
-                attrs = {n.attr for n in ast.walk(val) if isinstance(n, ast.Attribute) and isinstance(n.value, ast.Name) and n.value.id == selfn} \
-                    if val is not None else set()
-                if not attrs or (attrs & set(cparams)) - {p}:
+                if origin == "opaque":
+                    raise AnalysisError(f"{rid}: `{p}` of the derived template is bound by `{norm(d)}` (unrecognised form)")
+                reads_params, attrs = origin
+                if not attrs or (attrs & set(cparams)) - {p} or (reads_params & set(upd.params)) - {p}:
                     good = False
-                    why = f"`{p}` is re-bound by `{norm(d)}`, which does not derive it from this template's own {p}"
+                    why = f"`{p}` is bound by `{norm(d)}`, which does not derive it from this template's own {p}"
         else:
             why = f"`{p}` receives `{norm(v)}`"
         if good:
@@ -676,29 +682,112 @@ def _check_interp_rows(fn: ast.FunctionDef):
     ps = [a.arg for a in fn.args.args]
     if len(ps) != 3:
         raise AnalysisError(f"interp_rows helper has parameters {ps} (unrecognised form)")
-    body = [s for s in fn.body if not (isinstance(s, ast.Expr) and isinstance(s.value, ast.Constant))]
-    if len(body) != 1 or not isinstance(body[0], ast.Return) or not isinstance(body[0].value, ast.Call) or not body[0].value.args:
-        raise AnalysisError("interp_rows helper is not a single `return array([...])` (unrecognised form)")
-    lc = body[0].value.args[0]
-    if not isinstance(lc, (ast.ListComp, ast.GeneratorExp)) or len(lc.generators) != 1 or lc.generators[0].ifs \
-            or not isinstance(lc.generators[0].target, ast.Name):
-        raise AnalysisError("interp_rows helper does not build its result from one comprehension (unrecognised form)")
-    gen = lc.generators[0]
-    k = gen.target.id
-    elt = lc.elt
-    if not (isinstance(elt, ast.Call) and call_name(elt) == "interp" and len(elt.args) == 3 and not elt.keywords):
+    k, it, elt = _rows_iteration(fn)
+    if not (isinstance(elt, ast.Call) and call_name(elt) == "interp" and len(elt.args) + len(elt.keywords) == 3
+            and all(kw.arg in ("x", "xp", "fp") for kw in elt.keywords)):
         raise AnalysisError("interp_rows helper element is not an interp(q, x, y) call (unrecognised form)")
-    q, x, y = elt.args
+    bound = dict(zip(("x", "xp", "fp"), elt.args))
+    bound.update({kw.arg: kw.value for kw in elt.keywords})
+    if set(bound) != {"x", "xp", "fp"}:
+        raise AnalysisError("interp_rows helper element is not an interp(q, x, y) call (unrecognised form)")
+    q, x, y = bound["x"], bound["xp"], bound["fp"]
+    arr = ps[2]
     why = []
     if not (isinstance(q, ast.Name) and q.id == ps[0]):
         why.append(f"the query point is `{ast.unparse(q)}`, not `{ps[0]}`")
     if not (isinstance(x, ast.Name) and x.id == ps[1]):
         why.append(f"the grid is `{ast.unparse(x)}`, not `{ps[1]}`")
-    if ast.unparse(y) != f"{ps[2]}[:, {k}]":
-        why.append(f"element {k} interpolates `{ast.unparse(y)}`, not column `{ps[2]}[:, {k}]`")
-    if ast.unparse(gen.iter) not in (f"range({ps[2]}.shape[1])", f"range({ps[2]}.shape[-1])"):
-        why.append(f"the comprehension runs over `{ast.unparse(gen.iter)}`, not over the columns range({ps[2]}.shape[1])")
+    its = ast.unparse(it)
+    if its in (f"{arr}.T", f"{arr}.transpose()", f"transpose({arr})", f"np.transpose({arr})"):
+        # iteration over the columns themselves
+        if not (isinstance(y, ast.Name) and y.id == k):
+            why.append(f"each element interpolates `{ast.unparse(y)}`, not the column `{k}` the loop runs over")
+    else:
+        if ast.unparse(y) not in (f"{arr}[:, {k}]", f"{arr}[..., {k}]", f"{arr}.T[{k}]"):
+            why.append(f"element {k} interpolates `{ast.unparse(y)}`, not column `{arr}[:, {k}]`")
+        if its not in (f"range({arr}.shape[1])", f"range({arr}.shape[-1])", f"range(0, {arr}.shape[1])", f"range(0, {arr}.shape[-1])",
+                       f"range(len({arr}[0]))", f"range(len({arr}.T))"):
+            why.append(f"the iteration runs over `{its}`, not over the columns range({arr}.shape[1])")
     return (not why), "; ".join(why)
+
+
+def _rows_iteration(fn: ast.FunctionDef):
+    """(loop variable, iterable, element expression) of a helper that builds one value per column, written either as
+    `return wrap([elt for k in it])` or as `acc = []; for k in it: acc.append(elt); return wrap(acc)`.  Locals that are assigned
+    once by a plain top-level `name = expr` are inlined.  Raises AnalysisError for any other form."""
+    import copy
+    body = [s for s in fn.body if not (isinstance(s, ast.Expr) and isinstance(s.value, ast.Constant))]
+    if not body or not isinstance(body[-1], ast.Return) or body[-1].value is None:
+        raise AnalysisError("interp_rows helper does not end in a `return` of the collected values (unrecognised form)")
+    stores: Dict[str, int] = {}
+    for n in ast.walk(fn):
+        if isinstance(n, ast.Name) and isinstance(n.ctx, (ast.Store, ast.Del)):
+            stores[n.id] = stores.get(n.id, 0) + 1
+    params = {a.arg for a in fn.args.args}
+    env: Dict[str, ast.AST] = {}
+    loops, inits = [], {}
+    for s in body[:-1]:
+        if isinstance(s, ast.Assign) and len(s.targets) == 1 and isinstance(s.targets[0], ast.Name) and s.targets[0].id not in params \
+                and s.targets[0].id not in inits and s.targets[0].id not in env:
+            nm = s.targets[0].id
+            if (isinstance(s.value, ast.List) and not s.value.elts) or (isinstance(s.value, ast.Call) and call_name(s.value) == "list"
+                                                                       and not s.value.args and not s.value.keywords):
+                if loops:
+                    raise AnalysisError("interp_rows helper creates a list after its loop (unrecognised form)")
+                inits[nm] = s
+            elif stores.get(nm) == 1 and not loops:
+                env[nm] = s.value
+            else:
+                raise AnalysisError(f"interp_rows helper re-binds `{nm}` (unrecognised form)")
+        elif isinstance(s, ast.For) and not s.orelse:
+            loops.append(s)
+        else:
+            raise AnalysisError(f"interp_rows helper contains `{ast.unparse(s).splitlines()[0]}` (unrecognised form)")
+
+    def subst(e, depth=4):
+        if isinstance(e, ast.Name) and isinstance(e.ctx, ast.Load) and e.id in env and depth > 0:
+            return subst(env[e.id], depth - 1)
+        if not isinstance(e, ast.AST):
+            return e
+        new = copy.copy(e)
+        for field, val in ast.iter_fields(e):
+            if isinstance(val, list):
+                setattr(new, field, [subst(x, depth) if isinstance(x, ast.AST) else x for x in val])
+            elif isinstance(val, ast.AST):
+                setattr(new, field, subst(val, depth))
+        return new
+    ret = subst(body[-1].value)
+    seq = ret
+    if isinstance(ret, ast.Call) and ret.args:
+        seq = ret.args[0]
+        extra = list(ret.args[1:]) + [kw for kw in ret.keywords if kw.arg != "dtype"]
+        if extra:
+            raise AnalysisError(f"interp_rows helper wraps its values with extra arguments `{ast.unparse(ret)}` (unrecognised form)")
+    if isinstance(seq, (ast.ListComp, ast.GeneratorExp)):
+        if loops or inits:
+            raise AnalysisError("interp_rows helper mixes a loop with a comprehension (unrecognised form)")
+        if len(seq.generators) != 1 or seq.generators[0].ifs or not isinstance(seq.generators[0].target, ast.Name):
+            raise AnalysisError("interp_rows helper does not build its result from one comprehension (unrecognised form)")
+        gen = seq.generators[0]
+        return gen.target.id, gen.iter, seq.elt
+    if isinstance(seq, ast.Name) and seq.id in inits and len(loops) == 1 and len(inits) == 1:
+        loop = loops[0]
+        if not isinstance(loop.target, ast.Name) or len(loop.body) != 1:
+            raise AnalysisError("interp_rows helper: the collecting loop is not `for k in ...: acc.append(value)` (unrecognised form)")
+        st = loop.body[0]
+        elt = None
+        if isinstance(st, ast.Expr) and isinstance(st.value, ast.Call) and isinstance(st.value.func, ast.Attribute) \
+                and st.value.func.attr == "append" and isinstance(st.value.func.value, ast.Name) and st.value.func.value.id == seq.id \
+                and len(st.value.args) == 1 and not st.value.keywords:
+            elt = st.value.args[0]
+        elif isinstance(st, ast.AugAssign) and isinstance(st.op, ast.Add) and isinstance(st.target, ast.Name) and st.target.id == seq.id \
+                and isinstance(st.value, ast.List) and len(st.value.elts) == 1:
+            elt = st.value.elts[0]
+        if elt is None:
+            raise AnalysisError("interp_rows helper: the collecting loop is not `for k in ...: acc.append(value)` (unrecognised form)")
+        return loop.target.id, subst(loop.iter), subst(elt)
+    raise AnalysisError("interp_rows helper is neither `return array([... for k in ...])` nor a loop that appends one value per column "
+                        "(unrecognised form)")
 
 
 def r6_interp_rows(ctx, rid):
